@@ -325,7 +325,7 @@ def run(ctx):
                 pass
             if ctx.expired():
                 ctx.incomplete('deadline hit after %d of %d tasks' % (done_tasks, len(tasks)))
-                pool.pool.terminate()
+                pool.cancel()
                 break
     finally:
         pool.close()
